@@ -482,6 +482,48 @@ class Effects:
         return None
 
     # -------------------------------------------------------- attr-name view
+    def nonnull_only_attrs(self):
+        """qual -> attrs that the function (transitively) assigns, but only ever
+        definitely-non-None values (constructor results, displays, constants)."""
+        if getattr(self, "_nn", None) is not None:
+            return self._nn
+        from .cfg import definitely_nonnull
+
+        maybe = {}
+        for q, f in self.m.funcs.items():
+            mb = set()
+            for n in self.m.walk_own(f.node):
+                if isinstance(n, (ast.Assign, ast.AugAssign, ast.AnnAssign)):
+                    tg = n.targets if isinstance(n, ast.Assign) else [n.target]
+                    val = getattr(n, "value", None)
+                    for t in tg:
+                        for x in ([t] if not isinstance(t, (ast.Tuple, ast.List)) else t.elts):
+                            if isinstance(x, ast.Attribute):
+                                if isinstance(t, (ast.Tuple, ast.List)) or val is None or not definitely_nonnull(val, lambda nm: nm in self.m.cname):
+                                    mb.add(x.attr)
+                elif isinstance(n, ast.Call) and isinstance(n.func, ast.Name) and n.func.id in ("setattr", "delattr"):
+                    mb.add("*")
+                elif isinstance(n, ast.Delete):
+                    for t in n.targets:
+                        if isinstance(t, ast.Attribute):
+                            mb.add(t.attr)
+            maybe[q] = mb
+        g = self.r.graph()
+        res = {q: set(v) for q, v in maybe.items()}
+        changed = True
+        it = 0
+        while changed and it < 30:
+            changed = False
+            it += 1
+            for q in res:
+                for t, k in g.get(q, ()):
+                    if not res[t] <= res[q]:
+                        res[q] |= res[t]
+                        changed = True
+        attrs = self.attr_sets()
+        self._nn = {q: (attrs[q][0] - res[q]) if "*" not in res[q] else set() for q in attrs}
+        return self._nn
+
     def attr_sets(self):
         """qual -> (assigned attr names, mutated attr names), transitive, any root
         (the conservative view used to kill facts at call sites)."""
